@@ -350,12 +350,19 @@ def header_constants(ctx, report):
             if not isinstance(owner, ClassInfo):
                 continue
             for g in owner.methods.values():
+                defs = single_defs(g.node)
                 for n in ast.walk(g.node):
-                    if isinstance(n, ast.If) and isinstance(n.test, ast.Compare) and len(n.test.ops) == 1 and \
-                            isinstance(n.test.ops[0], ast.Lt) and ast.unparse(n.test.left) == 'len(parsable)' and \
-                            isinstance(n.test.comparators[0], ast.Attribute) and n.test.comparators[0].attr in HEADER_NAMES and \
-                            any(isinstance(x, ast.Raise) for x in n.body):
-                        names.add((n.test.comparators[0].attr, g))
+                    # ``len(parsable) < cls.X`` in any spelling (flipped, or through a local holding the difference)
+                    if isinstance(n, ast.If) and any(isinstance(x, ast.Raise) for x in n.body):
+                        gd = guard_deficit(n.test, {}, defs)
+                        if gd is None:
+                            continue
+                        d = gd[0]
+                        plus = [k for k, v in d.terms.items() if v == 1]
+                        minus = [k for k, v in d.terms.items() if v == -1]
+                        if d.const == 0 and len(d.terms) == 2 and minus == ['len(parsable)'] and len(plus) == 1 and \
+                                plus[0].split('.')[-1] in HEADER_NAMES and plus[0].split('.')[0] in ('cls', 'self'):
+                            names.add((plus[0].split('.')[-1], g))
         for name, g in names:
             # only when that pre-check is on the path of this class's _parse
             res = ctx.canon.layout(c, 'parse').result
